@@ -106,6 +106,15 @@ def programs(rng, quick):
             gu("rolling_sum", lab, stats.rolling_sum, (yi, 2, ND), [((n,), "float32")], f32=True)
             gu("mean_grp", lab, stats.mean_grp, (yi, np.array([i % 2 for i in range(n)], dtype="int16"), 2, ND), [((n,), "float32")], f32=True)
             nj("gammastd_yxt", lab, stats.gammastd_yxt, yi.reshape(1, 1, n), ND, 0, n)
+    # long int16 series: group sums and window sums far beyond 2^24 (single precision stops being exact there)
+    for n in (1500, 4000):
+        yl = np.array([32767] * (n // 3) + [1] * (n - 2 * (n // 3)) + [-32767] * (n // 3), dtype="int16")
+        gl = np.zeros(n, dtype="int16")
+        gu("mean_grp", f"n={n},long,cancel", stats.mean_grp, (yl, gl, 1, ND), [((n,), "float32")], f32=True)
+        yl2 = np.array([32767] * (n // 3) + [1] * (n - n // 3), dtype="int16")
+        gu("mean_grp", f"n={n},long", stats.mean_grp, (yl2, gl, 1, ND), [((n,), "float32")], f32=True)
+        gu("rolling_sum", f"n={n},long", stats.rolling_sum, (yl2, 1000, ND), [((n,), "float32")], f32=True)
+        nj("autocorr_1d_int", f"n={n},long", ac.autocorr_1d_int, yl2, ND)
     reps = 2 if quick else 12
     for _ in range(reps):
         for n in ([4, 5, 9, 24] if quick else [4, 5, 9, 24, 60]):
